@@ -687,6 +687,9 @@ class ModuleVistor(NodeVisitor):
         obj = cast(Optional[model.Attribute], cls.contents.get(name))
         if obj is None:
             obj = self.builder.addAttribute(name=name, kind=None, parent=cls)
+        elif obj.kind is model.DocumentableKind.PROPERTY:
+            # An assignment through self to a property of the class calls its setter: it stays a property.
+            return
 
         self._setAttributeAnnotation(obj, annotation)
 
